@@ -852,7 +852,7 @@ class World:
                     and not (op.get('inproc') and not first[2]):
                 # (in-process variant: only meaningful if the first parse really missed and had to save)
                 self.count('probe.repair_checked_inproc' if op.get('inproc') else 'probe.repair_checked')
-                if second[2]:
+                if second[2] and self._picklable(op, ctx):
                     self._violate(ctx, 'not-repaired', 'not-repaired',
                                   'fault-free: a %s parsed and saved the file, the next new process '
                                   'still was not served from the disk cache'
@@ -1014,6 +1014,22 @@ class World:
                               'get_used_names() of the returned module differs from a fresh parse: %r vs %r'
                               % (str(un)[:200], str(best[3])[:200]))
                 return
+
+    def _picklable(self, op, ctx):
+        """Can a tree of this file be pickled at all?  (About 150 nested blocks cannot: then there is
+        no entry to repair and the expectation of a disk hit does not apply.)"""
+        version = self.cfg['grammars'][op['g'] % len(self.cfg['grammars'])]
+        n = self.fs.h_node(self.files[op['f'] % len(self.files)])
+        if n is None:
+            return True
+        try:
+            pickle.dumps(grammar(version).parse(n.data), pickle.HIGHEST_PROTOCOL)
+            return True
+        except RecursionError:
+            self.count('probe.unpicklable_source')
+            return False
+        except Exception:
+            return True
 
     def _tree_diff(self, version, m, code):
         try:
